@@ -163,6 +163,15 @@ def replay(ctx: fw.Ctx, spec: dict, rec: dict) -> int:
         eval_programs(ctx, st, [case["source"]], styles, check_tree=(not styles) or ctx.prop in ("C03", "C07"), check_format=bool(styles),
                       fixpoint=(ctx.prop == "C15"), must_be_valid=False)
     elif kind == "lex":
+        if case.get("after_failed_text") is not None:
+            with quiet():
+                try:
+                    lx = Lexer(case["after_failed_text"])
+                    for _ in range(50):
+                        if lx.get_next_token().type == TokenType.EOF:
+                            break
+                except Exception:  # noqa: BLE001
+                    pass
         eval_lex(st, [case["source"]])
     elif kind == "text":
         if ctx.prop == "C10":
@@ -946,7 +955,7 @@ def eval_lex(st: fw.Stream, srcs: list[str], *, values=True, positions=True, com
 
 
 # =========================================================================== C05 string literals and comments
-STR_ITEMS = ["a", "0", "9", "f", "F", "x", "u", "z", " ", "\t", "{", "}", "[", "]", "=", "-",
+STR_ITEMS = ["a", "0", "9", "f", "F", "x", "u", "z", " ", "\t", "{", "}", "[", "]", "=", "-", "--", "--[[c]]", "--[==[",
              "\\a", "\\b", "\\f", "\\n", "\\r", "\\t", "\\v", "\\\\", "\\\"", "\\'", "\\\n", "\\z", "\\z ", "\\z\n\t ",
              "\\0", "\\9", "\\65", "\\065", "\\127", "\\128", "\\255", "\\256", "\\999",
              "\\x41", "\\x4a", "\\x7F", "\\x80", "\\xff", "\\x4", "\\xg1", "\\x",
@@ -1451,6 +1460,32 @@ def run_c20(ctx: fw.Ctx) -> None:
                     cases.append(" ".join(parts2))
     eval_lex(st2, cases, positions=False)
     st2.exhaustive = True
+    st_s = ctx.stream("comment-like text inside string literals (a token must not be swallowed by a comment), next to real comments")
+    lits = ['"--"', "'-- c'", '"--[[ c ]]"', "[[ -- c ]]", "[==[ --[[ c ]] ]==]", '"a\\z   --[[b]]c"', '"a\\z --b"', "'x\\z\n  -- q\n  r'", '"\\z--[==[" .. "]==]"',
+            '"a" --[[ real ]] .. "--not"', "'\\z' -- real\n"]
+    scases = []
+    for lit in lits:
+        for sh in shapes[:6]:
+            scases += [f"x = {lit} {sh} y = 1", f"{sh} f({lit}, {lit}) {sh}", f"t[{lit}] = {lit} {sh}"]
+    eval_lex(st_s, scases, positions=False)
+    st_s.exhaustive = True
+    st_h = ctx.stream("a lexer run that fails while comments are pending, followed by a run on a valid text: nothing may leak from one Lexer to the next")
+    bad = ["-- first\n--[==[ never closed ]=]", "-- a\n-- b\n'unterminated", "--[[ x ]] --[[ y ]] \"open", "-- only a comment", "x = 1 -- trailing\n--[=[ open"]
+    good = ["x = 1", "-- own\nreturn x", "f() --[[ t ]]"]
+    for b_ in bad:
+        for g_ in good:
+            with quiet():
+                try:
+                    lx = Lexer(b_)
+                    for _ in range(50):
+                        if lx.get_next_token().type == TokenType.EOF:
+                            break
+                except TumflError:
+                    pass
+                except Exception:  # noqa: BLE001
+                    pass
+            eval_lex(st_h, [g_], positions=False, meta={"after_failed_text": b_})
+    st_h.exhaustive = True
     st3 = ctx.stream("corpus files without known-finding numerals")
     files = [s for _, s in corpus_files() if "\r" not in s and (not ctx.quick or len(s) < 60000)]
     feats = drive([("features", hx(s)) for s in files])
@@ -1470,8 +1505,10 @@ for pid, runner, rule in [
 
 # =========================================================================== C13 statement-leading comments
 COMMENT_TEXTS = ["c", "x = 1", "[[", "]]", "[=[ k ]=]", "--", "- -", "'q", "\"q", "end", "]==]", "é中", "a\tb", "[", "[=", "=[",
-                 "[[ ]]", "TODO: (x)", "#!/bin/sh", "\\n", "--[[", "]] --", "{ }"]
-MULTI_TEXTS = ["l1\nl2", "a\n\nb", "[[\nx", "]=]\ny", "x\n]]", "--\n--", "a\n  indented\n\tb"]
+                 "[[ ]]", "TODO: (x)", "#!/bin/sh", "\\n", "--[[", "]] --", "{ }",
+                 # characters that Python's str.splitlines / str.isspace treat specially but that are ordinary comment text for Lua
+                 "a\x0cb", "a\x0bb", "a\x1cb", "a\x1db", "a\x1eb", "a\x85b", "a\u2028b", "a\u2029b", "a\xa0b", "a\x00b"]
+MULTI_TEXTS = ["l1\nl2", "a\n\nb", "[[\nx", "]=]\ny", "x\n]]", "--\n--", "a\n  indented\n\tb", "l1\x0cx\nl2\u2028y"]
 
 
 def comment_spellings(r: random.Random, text: str) -> str | None:
@@ -1612,6 +1649,26 @@ def run_c13(ctx: fw.Ctx) -> None:
         got = [g for g in out_comments(ans) if g[0] != "tumfl"]
         if got:
             st_off.fail("a source comment appears although comments are switched off", dict(case, output=out, got=got))
+    # known finding K5: blanks directly before a line break inside a multi-line comment
+    entry = next((k for k in fw.load_known().get("findings", []) if k["id"] == "K5" and k["property"] == "C13"), None)
+    if entry:
+        stw = ctx.stream("known-finding witnesses K5")
+        srcs = entry["inputs"]
+        answers = []
+        for src in srcs:
+            status, ast = tparse(src)
+            fs, out = tformat(ast, None) if status == "ok" else ("x", "")
+            answers.append((src, fs, out))
+        lexed = drive([("reflex", hx(o)) for _, _, o in answers])
+        src_lexed = drive([("reflex", hx(s_)) for s_ in srcs])
+        for (src, fs, out), ans, sans in zip(answers, lexed, src_lexed):
+            case = {"kind": "comments-k5", "source": src, "known": "K5"}
+            stw.record(case, key=src)
+            want = [g[0] for g in out_comments(sans)] if sans.startswith("ok") else None
+            got = [g[0] for g in out_comments(ans) if g[0] != "tumfl"] if ans.startswith("ok") else None
+            if fs != "ok" or got != want:
+                stw.fail("a blank directly before a line break inside a multi-line comment is lost", dict(case, output=out, got=got, want=want))
+        fw._KNOWN_RUNTIME[("C13", "K5")] = f"{len(stw.failures)} failing of {len(srcs)} listed inputs"
     t2_format(ctx, [(c[0], None) for c in cases[:: ctx.n(4, 1)]] + [(c[0], dict(INCLUDE_COMMENTS=False, COMMENT_SEP="")) for c in cases[:: ctx.n(9, 2)]]
               + [(c[0], dict(COMMENT_SEP="", STATEMENT_SEPARATOR=";")) for c in cases[:: ctx.n(9, 2)]])
     t2_parse(ctx, [c[0] for c in cases[:: ctx.n(4, 1)]])
@@ -1620,6 +1677,7 @@ def run_c13(ctx: fw.Ctx) -> None:
 register(
     "C13",
     run=run_c13,
+    classify=classify_k,
     modules=["Tumfl.Props.C11"],
     obligations=["Tumfl.Props.C11_roundtrip"],
     rule="programs whose statements carry unique marker names, with 0..3 leading comments per statement (23 single-line and 7 multi-line texts, "
